@@ -139,6 +139,14 @@ def run(tier, seed):
             out.append(('digits', str(mant * 10 ** e), (NUM_ERROR, VALUE_ERROR)))
         return out
 
+    def some(exps, keep=None):
+        """quick tier: every exponent; thorough tier (15 times the vectors):
+        four of them per vector, chosen at random"""
+        exps = sorted(exps)
+        if tier == 'quick' or len(exps) <= 4:
+            return exps
+        return sorted(set(rnd.sample(exps, 4)) | ({keep} if keep is not None else set()))
+
     seen_inf = 0
 
     formula_budget = 150 if tier == 'quick' else 1500
@@ -228,8 +236,8 @@ def run(tier, seed):
         if sorted(vec['out']) != sorted(
                 e for e in vec['exps'] if not -RANGE[base] <= n * 10 ** e < RANGE[base]):
             raise tlc.MachineryFailure(f'Radix!InRange disagrees with integer arithmetic: {vec}')
-        e_out = rnd.choice(vec['out']) if vec['out'] else None
-        for e in vec['out']:
+        e_out = rnd.choice(sorted(vec['out'])) if vec['out'] else None
+        for e in some(vec['out'], e_out):
             for kind, arg, allowed in forms(n, e, e in vec['inf'], e == e_out):
                 seen_inf += isinstance(arg, float) and math.isinf(arg)
                 expect_error(f'dec2{nm} scaled {kind}', call(dec2x, arg),
@@ -238,7 +246,7 @@ def run(tier, seed):
         # it has more than 10 digits (x2DEC and x2y given a number)
         if canon.isdigit():
             f = getattr(eng, f'{nm}2{NAME[ob]}')
-            for e in vec['long']:
+            for e in some(vec['long']):
                 for kind, arg, allowed in forms(int(canon), e, len(canon) + e >= 310, False):
                     if kind == 'text':
                         continue         # more than 10 characters: driven above
@@ -247,7 +255,7 @@ def run(tier, seed):
                     expect_error(f'{nm}2{NAME[ob]} scaled {kind}', call(f, arg),
                                  dict(case, exp10=e, arg=short(arg)), allowed)
         # places beyond any text length: 10^e, e >= 19
-        for e in vec['pfar']:
+        for e in some(vec['pfar']):
             for kind, arg, allowed in forms(1, e, e >= 309, False):
                 expect_error(f'dec2{nm} places scaled {kind}', call(dec2x, n, arg),
                              dict(case, exp10=e, places=short(arg)),
@@ -290,7 +298,7 @@ def run(tier, seed):
                     expect_error(f'formula DEC2{fn} scaled number', call(
                         xl.evalf, f'=DEC2{fn}(A1)', {'A1': float(sci)}),
                         dict(case, number=sci), (NUM_ERROR,))
-            e_far = rnd.choice(vec['pfar'])
+            e_far = rnd.choice(sorted(vec['pfar']))
             expect_error(f'formula DEC2{fn} places scaled', call(
                 xl.evalf, f'=DEC2{fn}(A1,"1e{e_far}")', {'A1': n}),
                 dict(case, places=f'"1e{e_far}"'))
@@ -309,8 +317,7 @@ def run(tier, seed):
         for n in (RANGE[base], -RANGE[base] - 1, RANGE[base] * 7, -RANGE[base] * 3):
             expect_error(f'dec2{nm} out of range', call(dec2x, n),
                          dict(base=base, value=n), (NUM_ERROR,))
-        # the doubles that no number stands for, as they arise inside a
-        # workbook (1E+308*10 is an infinity, minus itself a NaN to pycel)
+        # the doubles that no number stands for: the infinities and NaN
         others = [(NAME[ob], getattr(eng, f'{nm}2{NAME[ob]}'))
                   for ob in (2, 8, 16) if ob != base]
         for name, x in (('inf', math.inf), ('-inf', -math.inf), ('nan', nan)):
@@ -321,18 +328,18 @@ def run(tier, seed):
             for to, f in others:
                 expect_error(f'{nm}2{to} not finite', call(f, x), case)
                 expect_error(f'{nm}2{to} places not finite', call(f, '1', x), case)
-        big = {'inf': '1E+308*10', '-inf': '-1E+308*10', 'nan': '1E+308*10-1E+308*10'}
-        for name, expr in big.items():
+        # ... as they arise inside a workbook: to pycel 1E+308*10.5 is an
+        # infinity and 1E+308*10 an integer of 310 digits
+        for name, expr in (('inf', '1E+308*10.5'), ('-inf', '-1E+308*10.5'),
+                           ('1e309', '1E+308*10')):
             case = dict(base=base, value=name, expr=expr)
+            to = others[0][0].upper()
             for desc, formula in (
                     (f'formula DEC2{fn} not finite', f'=DEC2{fn}({expr})'),
-                    (f'formula DEC2{fn} not finite cell', f'=DEC2{fn}(A1*10)'),
+                    (f'formula DEC2{fn} not finite cell', f'=DEC2{fn}(A1*10.5)'),
                     (f'formula DEC2{fn} places not finite', f'=DEC2{fn}(1,{expr})'),
                     (f'formula {fn}2DEC not finite', f'={fn}2DEC({expr})'),
-                    (f'formula {fn}2{others[0][0].upper()} not finite',
-                     f'={fn}2{others[0][0].upper()}({expr})')):
-                if 'A1' in formula and name == 'nan':
-                    continue
+                    (f'formula {fn}2{to} not finite', f'={fn}2{to}({expr})')):
                 cells = {'A1': -1e308 if name == '-inf' else 1e308}
                 expect_error(desc, call(xl.evalf, formula, cells), dict(case, formula=formula))
     v.extra.update(exhaustive=(tier == 'quick'), vectors=len(vectors),
